@@ -459,6 +459,68 @@ func (b *c35B) statement() string {
 	return name
 }
 
+// Non-ASCII characters that strings.ToLower / unicode.SimpleFold / (?i) regexps relate to ASCII
+// letters in different ways: U+0130 lower-cases to 'i' but does not fold with it, U+0131 upper-cases
+// to 'I', U+017F folds with 's', U+212A lower-cases to and folds with 'k', fullwidth letters look
+// like ASCII but never fold to it.
+func c35FoldChar(t *rapid.T, c byte) string {
+	lc := c | 0x20
+	if lc < 'a' || lc > 'z' {
+		return string(c)
+	}
+	switch rapid.IntRange(0, 5).Draw(t, "foldpick") {
+	case 0, 1:
+		switch lc {
+		case 'i':
+			return rapid.SampledFrom([]string{"İ", "ı", "İ"}).Draw(t, "foldi")
+		case 's':
+			return "ſ"
+		case 'k':
+			return "K"
+		}
+		return string(c)
+	case 2:
+		if rapid.IntRange(0, 2).Draw(t, "fullwidth") == 0 {
+			if c >= 'a' {
+				return string(rune(0xFF41 + int(c-'a')))
+			}
+			return string(rune(0xFF21 + int(c-'A')))
+		}
+		return string(c)
+	case 3:
+		return strings.ToUpper(string(c))
+	}
+	return string(c)
+}
+
+func c35FoldWord(t *rapid.T, s string) string {
+	var sb strings.Builder
+	for i := 0; i < len(s); i++ {
+		if s[i] < 0x80 {
+			sb.WriteString(c35FoldChar(t, s[i]))
+		} else {
+			sb.WriteByte(s[i])
+		}
+	}
+	return sb.String()
+}
+
+// c35RenderFold re-spells most keywords and a few other pieces (implicit columns, names).
+func c35RenderFold(t *rapid.T, p []c35Piece) string {
+	var sb strings.Builder
+	for _, x := range p {
+		switch {
+		case x.KW && rapid.IntRange(0, 2).Draw(t, "foldkw") != 0:
+			sb.WriteString(c35FoldWord(t, x.S))
+		case !x.KW && rapid.IntRange(0, 7).Draw(t, "foldother") == 0:
+			sb.WriteString(c35FoldWord(t, x.S))
+		default:
+			sb.WriteString(x.S)
+		}
+	}
+	return sb.String()
+}
+
 func c35Render(p []c35Piece) string {
 	var sb strings.Builder
 	for _, x := range p {
@@ -587,7 +649,7 @@ func TestVF_C35_NoCrash(t *testing.T) {
 	known := vfkit.Known(c35FindingID)
 	rapid.Check(t, func(t *rapid.T) {
 		var q, class string
-		switch rapid.IntRange(0, 9).Draw(t, "mode") {
+		switch rapid.SampledFrom([]int{0, 1, 2, 3, 4, 5, 6, 7, 8, 9, 10, 10, 10}).Draw(t, "mode") {
 		case 0: // arbitrary unicode text
 			q = rapid.String().Draw(t, "text")
 			class = "raw-unicode"
@@ -621,6 +683,14 @@ func TestVF_C35_NoCrash(t *testing.T) {
 				full := c35Render(b.p)
 				q = full[:rapid.IntRange(0, len(full)).Draw(t, "cutbyte")]
 			}
+		case 10: // keywords (and sometimes names) spelt with non-ASCII characters that case-fold to ASCII letters
+			b := &c35B{t: t, hazard: rapid.SampledFrom([]int{0, 0, 0, 1, 3}).Draw(t, "hz")}
+			class = "fold-spelled:" + b.statement()
+			p := b.p
+			if rapid.IntRange(0, 4).Draw(t, "foldmut") == 0 {
+				p = c35Mutate(t, p)
+			}
+			q = c35RenderFold(t, p)
 		default: // plain grammar
 			b := &c35B{t: t}
 			class = "grammar-ascii:" + b.statement()
